@@ -56,7 +56,7 @@ def state_level(run, thorough):
     metas = []
     for k in range(n):
         name = gen_name(rng)
-        where = rng.choice(['home', 'home', 'vol', 'vol_top', 'home_deep'])
+        where = rng.choice(['home', 'home', 'vol', 'vol_top', 'home_deep']) if rng.random() > 0.06 else rng.choice(['home_long', 'vol_long'])
         sticky = rng.random() < 0.5
         tree = [['d', '/home/u', 0o755], ['d', '/vol1', 0o755]]
         if sticky:
@@ -68,6 +68,9 @@ def state_level(run, thorough):
             parent = '/home/u/' + '/'.join(depthdirs) if depthdirs else '/home/u'
         elif where == 'vol':
             parent = '/vol1/' + '/'.join(depthdirs) if depthdirs else '/vol1/sub'
+        elif where in ('home_long', 'vol_long'):
+            # 80-character CJK components: 1.5-1.7 kB on disk, but more than 4.3 kB once percent-escaped in Path=
+            parent = ('/home/u/' if where == 'home_long' else '/vol1/') + '/'.join(['\u6f22' * 80] * rng.choice([6, 7]))
         else:
             parent = '/vol1'
         if len(os.fsencode(parent)) > 3000:
@@ -109,7 +112,7 @@ def state_level(run, thorough):
         put, lst = res['steps'][0], res['steps'][1]
         after = put['after']
         uid = meta['uid']
-        if meta['where'] in ('home', 'home_deep'):
+        if meta['where'] in ('home', 'home_deep', 'home_long'):
             td, loc = '/home/u/.local/share/Trash', meta['full']
         else:
             td = '/vol1/.Trash/%d' % uid if meta['sticky'] else '/vol1/.Trash-%d' % uid
@@ -149,7 +152,7 @@ def state_level(run, thorough):
             ok = ok and all(c in allowed for c in pv)
             ok = ok and rfc_unescape(pv) == os.fsencode(loc)
             ok = ok and blines[2][13:].decode('ascii', 'replace') == '%04d-%02d-%02dT%02d:%02d:%02d' % tuple(meta['now'][:6])
-            ok = ok and (pv.startswith(b'/') == (meta['where'] in ('home', 'home_deep'))) and b'/../' not in b'/' + pv + b'/'
+            ok = ok and (pv.startswith(b'/') == (meta['where'] in ('home', 'home_deep', 'home_long'))) and b'/../' not in b'/' + pv + b'/'
         if not ok:
             run.fail('oracle', '.trashinfo on disk is not the spec-conformant image of (location, time)',
                      dict(case, info_bytes=esc(data), expected_location=esc(loc)), key='bad-trashinfo', section='state')
